@@ -242,11 +242,7 @@ func (sc *scen) ttlCase(host string, cl *ident) {
 		return
 	}
 	sc.count("cli_valid_accepted")
-	if sc.r.SampleN() < 5 && T == 90*time.Second {
-		sc.r.Sample(map[string]any{"case": sc.caseID, "token_ttl": T.String(), "challenge_ttl": challengeTTL.String(),
-			"probed_offsets_after_issue": "TTL-1s, TTL, TTL+1ns, TTL+1s for both lifetimes; tokens issued late are swept again",
-			"proof_request": buildHeader(s1.proof), "bearer": s1.bearer})
-	}
+	var observed []string // what the real server answered at each probed instant (for the evidence sample)
 
 	type probe struct {
 		what  string // "challenge" | "token"
@@ -287,6 +283,7 @@ func (sc *scen) ttlCase(host string, cl *ident) {
 			if age > p.ttl {
 				side = "after_expiry"
 			}
+			observed = append(observed, fmt.Sprintf("t0+%v: %s/%s aged %v (ttl %v) -> accepted=%v", time.Since(t0), p.what, p.label, age, p.ttl, c.accepted))
 			if c.accepted {
 				sc.count("ttl_" + p.what + "_accepted_" + side)
 				if tok := getParam(orderedParams(c.respHdr.Get("Authentication-Info")), "bearer"); tok != "" {
@@ -325,6 +322,9 @@ func (sc *scen) ttlCase(host string, cl *ident) {
 				sweep([]probe{*late})
 			}
 		}
+	}
+	if sc.r.SampleN() < 3 && T == 90*time.Second {
+		sc.r.Sample(map[string]any{"case": sc.caseID, "token_ttl": T.String(), "challenge_ttl": challengeTTL.String(), "observed": observed})
 	}
 }
 
@@ -461,7 +461,7 @@ func (sc *scen) clientCase(host string, cl, evilID, otherClient *ident, flow str
 			}
 		}
 	}
-	if sc.r.SampleN() < 5 && strings.HasSuffix(sc.caseID, "c0-ed25519/"+flowServer) {
+	if sc.r.SampleN() < 4 && dry.err == nil && flow == flowServer {
 		sc.r.Sample(map[string]any{"case": sc.caseID, "honest_round_trips": logDump(dry.log),
 			"then": "a malicious round tripper mutates/replays/swaps every parameter of both response headers"})
 	}
@@ -500,6 +500,20 @@ func (sc *scen) clientCase(host string, cl, evilID, otherClient *ident, flow str
 	if www != nil {
 		runPlan("replay", "whole-www-of-earlier-run", editResp(wwwStep, "WWW-Authenticate", func([]kv) []kv { return www }))
 		runPlan("replay", "whole-info-of-earlier-run", editResp(infoStep, "Authentication-Info", func([]kv) []kv { return info }))
+		// ... and with the old challenge echoed back, for a client that would trust the echo
+		echo := kv{"challenge-server", earlierChallenge}
+		runPlan("replay", "whole-www-of-earlier-run+echoed-old-challenge", editResp(wwwStep, "WWW-Authenticate", func([]kv) []kv { return append(append([]kv(nil), www...), echo) }))
+		runPlan("replay", "whole-info-of-earlier-run+echoed-old-challenge", editResp(infoStep, "Authentication-Info", func([]kv) []kv { return append(append([]kv(nil), info...), echo) }))
+		runPlan("replay", "old-sig+echoed-old-challenge", func(s int, req *http.Request) *http.Response {
+			resp := def(s, req)
+			for _, h := range []string{"WWW-Authenticate", "Authentication-Info"} {
+				if ps := orderedParams(resp.Header.Get(h)); getParam(ps, "sig") != "" {
+					old := getParam(www, "sig") + getParam(info, "sig")
+					resp.Header.Set(h, buildHeader(append([]kv{echo}, setParam(ps, "sig", old)...)))
+				}
+			}
+			return resp
+		})
 	}
 	for _, k := range []string{"sig", "public-key", "challenge-client", "opaque"} {
 		if v := getParam(www, k); v != "" {
@@ -757,8 +771,13 @@ func (sc *scen) clientCase(host string, cl, evilID, otherClient *ident, flow str
 		book("token-cache", tc.do(&wire{handler: func(s int, req *http.Request) *http.Response {
 			return &http.Response{StatusCode: 200, Header: http.Header{}, Body: io.NopCloser(strings.NewReader("")), Request: req}
 		}}, host, true, "token-cache", "stranger-answers-200"))
+		// the token belongs to `host`: under another hostname the client must handshake afresh, whoever answers
+		book("token-cache", tc.do(&wire{handler: func(s int, req *http.Request) *http.Response {
+			return &http.Response{StatusCode: 200, Header: http.Header{}, Body: io.NopCloser(strings.NewReader("")), Request: req}
+		}}, other, true, "token-cache", "other-hostname/stranger-answers-200"))
+		book("token-cache", tc.do(&wire{handler: honest(H)}, other, true, "token-cache", "other-hostname/honest-server"))
 		book("token-cache", tc.do(&wire{handler: honest(E)}, host, true, "token-cache", "evil-server-refuses-token-and-handshakes"))
-		book("token-cache", tc.do(&wire{handler: honest(H)}, other, true, "token-cache", "other-hostname-has-no-token"))
+		book("token-cache", tc.do(&wire{handler: honest(E)}, other, true, "token-cache", "other-hostname/evil-server"))
 	}
 }
 
@@ -869,6 +888,15 @@ func (sc *scen) concCase(round, iters int) {
 	sc.st["conc_accepts_justified"] += int(accepts.Load())
 	sc.st["conc_forged_rejected"] += int(forgedRejected.Load())
 	sc.mu.Unlock()
+	if accepts.Load() > 0 {
+		sc.bump(&sc.valid)
+	}
+	if sc.r.SampleN() < 5 {
+		sc.r.Sample(map[string]any{"case": sc.caseID, "goroutines": workers, "iterations_per_honest_worker": iters,
+			"honest":                 "6 real ClientPeerIDAuth (handshake + token reuse), 6 hand-made handshakes (both flows) + token",
+			"forgers":                "4, each takes every genuine blob the moment it is issued and sends its MAC glued to forged fields, next to a replay of the genuine blob",
+			"accepted_and_justified": accepts.Load(), "forged_rejected": forgedRejected.Load()})
+	}
 }
 
 // forger: the MAC of a genuine blob that is in flight right now, glued to other fields; the genuine blob
